@@ -9,15 +9,23 @@ From XSM Require Import Model.TreeLib Gen.GenTree Gen.GenGeom Proofs.TreeP Proof
   Proofs.SelectP Proofs.HistoryP Proofs.InvariantP Proofs.InvariantHP Proofs.GeomBridge Proofs.SelectBridge Proofs.SourceGeomP.
 From Coq Require Import Lia.
 
+(* a selected transition, DISPATCHED as the source dispatches it (Gen/GenGeom.v: dispatch_async / dispatch_sync, translated from
+   _execute_transition / _execute_transition_sync with the effects replaced by the decision) *)
 Definition exec_transition_src (eng : engine) (pr : bool) (m : machine) (t : trans) (ev : event) : M :=
-  match t_target t with
-  | TNone => (fun s => exec_actions eng pr (t_actions t) ev s) ;; hook_trans t
-  | TUnresolvable => raise EStateNotFound
-  | TState tgt =>
-      if Nat.eqb tgt (t_src t) && negb (t_reenter t)
-      then (fun s => exec_actions eng pr (t_actions t) ev s) ;; hook_trans t
-      else exec_external_src eng pr m t tgt ev
+  match (match eng with Async => dispatch_async | _ => dispatch_sync end) m t with
+  | DTargetless | DInternal => (fun s => exec_actions eng pr (t_actions t) ev s) ;; hook_trans t
+  | DNotFound => raise EStateNotFound
+  | DExternal tgt => exec_external_src eng pr m t tgt ev
   end.
+
+Lemma dispatch_is_model eng m t :
+  (match eng with Async => dispatch_async | _ => dispatch_sync end) m t =
+  match t_target t with
+  | TNone => DTargetless
+  | TUnresolvable => DNotFound
+  | TState tgt => if Nat.eqb tgt (t_src t) && negb (t_reenter t) then DInternal else DExternal tgt
+  end.
+Proof. destruct eng; unfold dispatch_async, dispatch_sync, has_target, resolved_target; destruct (t_target t); reflexivity. Qed.
 
 (* the value of a transition's guard in a configuration and context (a missing implementation is excluded by hypothesis) *)
 Definition guard_of (m : machine) (C : config) (cx : ctx) (t : trans) : bool :=
@@ -42,7 +50,7 @@ Section SourceStep.
   Lemma exec_transition_src_eq eng pr t ev s :
     Inv m s -> In (t_src t) (s_cfg s) -> target_okh m t -> exec_transition_src eng pr m t ev s = exec_transition eng pr m t ev s.
   Proof.
-    intros [HL _] Hsrc Hok. unfold exec_transition_src, exec_transition, target_okh in *.
+    intros [HL _] Hsrc Hok. unfold exec_transition_src, exec_transition, target_okh in *. rewrite dispatch_is_model.
     destruct (t_target t) as [|tgt|]; try reflexivity.
     destruct (Nat.eqb tgt (t_src t) && negb (t_reenter t)); [reflexivity|].
     apply (exec_external_src_eq m Hside); [exact HL | exact Hsrc | exact (proj1 Hok)].
